@@ -329,6 +329,11 @@ def group_src(g, lite=False):
     def ok(mask):
         return mask & g.enabled == mask
 
+    def final_pos(mask):
+        """word positions (in the base group) of the optional vtables a final form keeps, in the
+        order it must keep them: by visible name"""
+        return "[" + ", ".join(str(len(mand_names) + sorted_opt.index(n)) for n in sorted(subset_names(mask))) + "]"
+
     ind = "                "
     for ti, (_, t) in enumerate(g.members):
         is_mand = ti < g.n_mand
@@ -379,14 +384,18 @@ def group_src(g, lite=False):
                     actions.append((f"cast({names})+upcast {t.name}::{m.name}", code))
                 # final form (terminal)
                 if m.recv == "own":
-                    code = (f"{ind}let f_ = match into!(g_.take().unwrap() impl {names}) {{ Some(x) => x, None => {{ {refuse.replace('{PATH}', 'into')} }} }}; fl.casts += 1;\n"
+                    code = (f"{ind}let before_ = raw_words(g_.as_ref().unwrap(), {len(mand_names) + len(opt_names)});\n"
+                            f"{ind}let f_ = match into!(g_.take().unwrap() impl {names}) {{ Some(x) => x, None => {{ {refuse.replace('{PATH}', 'into')} }} }}; fl.casts += 1;\n"
+                            f"{ind}final_words_check(&before_, &raw_words(&f_, {len(mand_names)} + {len(subset_names(mask))}), {len(mand_names)}, &{final_pos(mask)}, \"{T}\", \"{names}\")?;\n"
                             + call_block(t, m, "let ow = f_;", gr_own, ind))
                     actions.append((f"into({names}) {t.name}::{m.name}", code))
                     code = (f"{ind}let c_ = match cast!(g_.take().unwrap() impl {names}) {{ Some(x) => x, None => {{ {refuse.replace('{PATH}', 'cast')} }} }}; fl.casts += 1;\n"
                             + call_block(t, m, "let ow = c_;", gr_own, ind))
                     actions.append((f"cast({names}) {t.name}::{m.name}", code))
                 else:
-                    code = (f"{ind}let mut f_ = match into!(g_.take().unwrap() impl {names}) {{ Some(x) => x, None => {{ {refuse.replace('{PATH}', 'into')} }} }}; fl.casts += 1; holders_extra = 1;\n"
+                    code = (f"{ind}let before_ = raw_words(g_.as_ref().unwrap(), {len(mand_names) + len(opt_names)});\n"
+                            f"{ind}let mut f_ = match into!(g_.take().unwrap() impl {names}) {{ Some(x) => x, None => {{ {refuse.replace('{PATH}', 'into')} }} }}; fl.casts += 1; holders_extra = 1;\n"
+                            f"{ind}final_words_check(&before_, &raw_words(&f_, {len(mand_names)} + {len(subset_names(mask))}), {len(mand_names)}, &{final_pos(mask)}, \"{T}\", \"{names}\")?;\n"
                             f"{ind}{{\n" + call_block(t, m, "let ow = &mut f_;", gr_ref, ind + "    ") + f"\n{ind}}}\n{ind}holders_extra = 0; drop(f_); r.take();")
                     actions.append((f"into({names}) {t.name}::{m.name}", code))
     arms = "\n".join(f"            {i} => {{ // {d}\n{c}\n            }}" for i, (d, c) in enumerate(actions))
